@@ -1,4 +1,5 @@
-(* C13 — Output regions never overlap or overflow silently.  Statements only; proofs in Asm/SegProofs.v.
+(* C13 — Output regions never overlap or overflow silently.  Statements only; proofs in Asm/SegProofs.v, SegPut.v,
+   InstrSize.v, CtxInvDefs.v, CtxInvSeg.v, CtxInvStep.v, CtxInvCap.v, CtxInvTop.v.
    Model: Asm/CtxSeg.v + Asm/CtxModel.v (transliteration of src/asm/mod.rs, the directives and the deferred-statement
    code of src/arm6m/mod.rs after the repairs d7ad029, 14f510b, a613c66, fe020dd).
 
@@ -7,20 +8,46 @@
                 capacity ends at the next occupied address or at 2^32);
    Inv st     : Rep (output st) (C15's map invariant) and SegInv for the active segment, if any;
    occupied m a : some segment of m covers address a.
+   task_range t : the address range (addr, len) of a pending task: len = the size of the mnemonic's encoding (isz: 2 or 4,
+                fixed by the constructor of the instruction; encode / ArmInstr::assemble / the partially converted
+                template all keep it) or 1/2/4 for .du8/.du16/.du32; None for the .global / .import bookkeeping tasks;
+   allocated st a n : [a, a+n) lies wholly inside the active buffer, or every address of it is occupied in the map;
+   good st    : Inv st, and the range of every task in global_tasks / local_tasks is allocated;
+   mono st st' : every range allocated in st is allocated in st' (this carries the tasks that are not in the state
+                at that moment: the list being drained by assemble / finalize and the lists saved in a PathFrame
+                across `.include`);
+   seg_site p : p is one of the panic sites of the segment / map code: P_close_assert (assert_eq!(n, len) at close),
+                P_put_assert_instr / P_put_assert_data (assert_eq!(n, 0) in write_instr / write_data), any panic inside
+                MemoryMap::{find, put} (P_map _), the usize subtractions P_remaining / P_next_sub / P_write_at_sub,
+                P_not_inactive;
+   stmt_size fs st s e : the number of bytes statement e appends when that is known before it runs (instruction: size
+                of the mnemonic; .du*: 1/2/4; .dstr/.dhex/.dfile: the bytes given; .align n: distance to the next
+                multiple); cshape / wshape: the possible effects of a statement / of a resolving task (CtxInvCap.v).
 
-   PutFresh (explicit hypothesis, stated in Asm/SegProofs.v): MemoryMap::put of n bytes into addresses none of which
-   is occupied (adjacent neighbours allowed) returns Ok(n), keeps Rep and adds exactly those addresses.  C15 proves
-   this for the non-adjacent case (C15_put_partial); the adjacent arms are covered by C15's correspondence stream.
-   Theorems that need the adjacent case carry PutFresh as a hypothesis; C13_close_no_panic_separated does not.
+   MemoryMap::put facts come from C15 (Mem/MapOccupied.put_fresh_ok for the close, Mem/MapPutProofs.put_ok for the
+   rewrite of pre-allocated bytes); no theorem here carries a hypothesis about put any more.
 
-   NOT proved (correspondence only, see props/C13.json):
-   * C13_inv for whole programs: forall fs path text, every state reached by `pipeline` satisfies Inv and every
-     pending task's range is occupied / inside the active buffer (needs the induction over step / run_task);
-   * C13_capacity for the statement level (align, .dfile, .dstr, instructions, .du8 .du16 .du32): each is a call of seg_write /
-     seg_write_at below, whose capacity theorems are proved; the lifting through the dir_ functions and write_stmt is not;
-   * C13_deferred_address: forall st t, Inv st -> task range allocated -> run_task rewrites exactly [addr, addr+len). *)
+   Whole programs, `.include` included (the recursion of Context::assemble is covered by induction on its fuel): every
+   state reached by `pipeline` from init_state is `good` (C13_inv_step / C13_inv_task / C13_inv_assemble /
+   C13_inv_finalize / C13_inv_pipeline), no seg_site panic occurs (C13_no_assert_fires).
+
+   NOT proved:
+   * the assert of write_at itself (P_write_at_assert: addr <= curr_addr()) is excluded only while the active buffer
+     holds fewer than 2^32 bytes (C13_write_at_assert_only_full): with a buffer of exactly 2^32 bytes (base 0),
+     `buffer.len() as u32` is 0, curr_addr() is 0 and a task resolving inside that buffer trips the assert.  Panics that
+     depend on the scope discipline (P_no_local_scope, P_active_unwrap, ...) belong to C06 / C14.
+   * C13_capacity_stmt covers a statement whose size is known before it runs (stmt_size = Some n).  It says: the map is
+     untouched, and either nothing is written, an error level is returned and a diagnostic has been pushed, or all n
+     bytes are appended within max_len.  The class of the diagnostic (ASegOverflow / KInstrSegOverflow, or an earlier
+     error of the same statement) is not stated here (correspondence stream).  `.align` with a deferred / ill-typed
+     argument, `.dfile` of a missing file, `.dhex` of a malformed string and unknown mnemonics have no stmt_size: they
+     write nothing or fall under C13_inv_step only.
+   * ownership (which statement owns which address, "no byte written twice" as a ghost-owner statement) is checked by
+     the generator's oracle in the correspondence stream, not proved. *)
 From Coq Require Import ZArith NArith List Bool String.
-From Trion Require Import Text.Types Arm.DisplayModel Mem.MapModel Mem.MapProofs Asm.CtxModel Asm.SegProofs.
+From Trion Require Arm.Instr Arm.AsmStmtModel.
+From Trion Require Import Text.Types Arm.DisplayModel Mem.MapModel Mem.DictSpec Mem.MapProofs Asm.CtxModel Asm.SegProofs Asm.SegPut
+  Asm.InstrSize Asm.CtxInvDefs Asm.CtxInvSeg Asm.CtxInvStep Asm.CtxInvCap Asm.CtxInvTop.
 Import ListNotations.
 Open Scope N_scope.
 
@@ -70,11 +97,11 @@ Proof. exact change_refused_closed. Qed.
 
 (* ... and with a segment being written: an address in a closed region or among the bytes already written there
    (its base included, fix 14f510b) is Occupied; the only state change is that the active segment was closed *)
-Theorem C13_select_refused_active : PutFresh -> forall dbg st s addr, Inv st -> active st = Active s -> addr < CtxSeg.U32 ->
+Theorem C13_select_refused_active : forall dbg st s addr, Inv st -> active st = Active s -> addr < CtxSeg.U32 ->
   (occupied (output st) addr \/ (s_base s <= addr /\ addr < s_base s + blen s)) ->
   exists st', change_segment dbg st addr = Ret (inr (SegOccupied addr)) st' /\ active st' = Inactive /\
     forall x, occupied (output st') x <-> occupied (output st) x \/ (s_base s <= x /\ x < s_base s + blen s).
-Proof. exact change_refused_active. Qed.
+Proof. exact change_refused_active'. Qed.
 
 (* after a successful selection the next byte goes to exactly that address: the segment is empty with base = addr,
    so curr_addr = addr and the first write is the buffer [data] at base addr *)
@@ -93,20 +120,107 @@ Qed.
 
 (* closing: under the invariant the close-time assert_eq!(n, len) holds — no panic, the map keeps its invariant and
    gains exactly the written addresses *)
-Theorem C13_close_no_panic : PutFresh -> forall dbg st, Inv st ->
+Theorem C13_close_no_panic : forall dbg st, Inv st ->
   exists st' b, close_segment dbg st = Ret (inl b) st' /\ Inv st' /\ active st' = Inactive /\
     (forall x, occupied (output st') x <->
        occupied (output st) x \/ match active st with
                                  | Active s => s_base s <= x /\ x < s_base s + blen s
                                  | Inactive => False
                                  end).
-Proof. exact close_ok. Qed.
+Proof. exact close_ok'. Qed.
 
-(* the same without any hypothesis about put when at least one free address separates the region from its neighbours *)
-Theorem C13_close_no_panic_separated : forall dbg st s, Inv st -> active st = Active s -> s_buf s <> [] ->
-  (forall g, In g (output st) -> slast g + 1 < s_base s \/ s_base s + blen s < sfirst g) ->
-  exists m', close_segment dbg st = Ret (inl true) (set_active (set_output st m') Inactive) /\ Rep m'.
-Proof. exact close_separated. Qed.
+(* ---------------------------------------------------------------- whole programs *)
+(* the empty context is good *)
+Theorem C13_inv_init : good init_state.
+Proof. exact good_init. Qed.
+
+(* one statement (any kind; `.include` runs Context::assemble one level down): from a good state the next state is
+   good, everything allocated stays allocated, and a panic — if any — is not at a segment / map site *)
+Theorem C13_inv_step : forall dbg fs fuel st e, good st ->
+  match step dbg fs (assemble dbg fs fuel) st e with
+  | Ret _ st' => good st' /\ mono st st'
+  | Panic p => ~ seg_site p
+  | OutOfFuel => True
+  end.
+Proof. exact step_inv. Qed.
+
+(* one deferred task whose range is allocated (it need not be in the state's lists: it is being drained) *)
+Theorem C13_inv_task : forall dbg st t, good st -> task_ok st t -> post st (run_task dbg st t).
+Proof. exact run_task_post. Qed.
+
+(* Context::assemble: a whole file with its task loop, includes and the PathFrame restore *)
+Theorem C13_inv_assemble : forall dbg fs fuel st data path, good st -> post st (assemble dbg fs fuel st data path).
+Proof. exact assemble_post. Qed.
+
+Theorem C13_inv_finalize : forall dbg st, good st -> post st (finalize dbg st).
+Proof. exact finalize_post. Qed.
+
+(* the pipeline of src/bin/assembler.rs: assemble, close_segment, finalize *)
+Theorem C13_inv_pipeline : forall dbg fs fuel path text,
+  match pipeline_state dbg fs fuel path text with
+  | Ret _ st => good st
+  | Panic p => ~ seg_site p
+  | OutOfFuel => True
+  end.
+Proof. exact pipeline_inv. Qed.
+
+(* corollary: the close-time assert_eq!(n, len), the two assert_eq!(n, 0) of write_instr / write_data and the other
+   segment / map sites never fire, in either build profile, for any project and include depth *)
+Theorem C13_no_assert_fires : forall dbg fs fuel path text p, pipeline_gen dbg fs fuel path text = PPanic p ->
+  p <> P_close_assert /\ p <> P_put_assert_instr /\ p <> P_put_assert_data /\ (forall q, p <> P_map q) /\
+  p <> P_remaining /\ p <> P_next_sub /\ p <> P_write_at_sub /\ p <> P_not_inactive.
+Proof. exact no_assert_fires. Qed.
+
+(* the reported regions are the listing of a map that satisfies C15's invariant (sorted, disjoint, non-adjacent) *)
+Theorem C13_image_rep : forall dbg fs fuel path text s diags regions,
+  pipeline_gen dbg fs fuel path text = Done s diags regions -> exists m, Rep m /\ regions = map_iter m.
+Proof. exact pipeline_image_rep. Qed.
+
+(* the assert inside write_at can only fire for a task that resolves inside a buffer of exactly 2^32 bytes *)
+Theorem C13_write_at_assert_only_full : forall dbg st f l c a data ko kp pa, Inv st ->
+  allocated st a (MapModel.len data) -> 0 < MapModel.len data ->
+  write_stmt dbg st f l c a data ko kp pa = Panic P_write_at_assert -> exists s, active st = Active s /\ blen s = MapModel.U32.
+Proof. exact write_at_assert_only_full. Qed.
+
+(* ---------------------------------------------------------------- capacity at statement level *)
+(* a statement of known size n (instruction, .du8/16/32, .dstr, .dhex, .dfile, .align) on the active segment s:
+   the map (all other regions) is unchanged, and either nothing is written, an error level is returned and the last
+   action was to push a diagnostic (so the run ends in Failure), or all n bytes are appended and they fit below max_len — i.e. (by Inv) below the next occupied address and below 2^32 *)
+Theorem C13_capacity_stmt : forall dbg fs inc st s e n r st', good st -> active st = Active s ->
+  stmt_size fs st s e = Some n -> step dbg fs inc st e = Ret r st' ->
+  output st' = output st /\
+  ((active st' = Active s /\ r <> None /\ errors st' <> [])
+   \/ (exists data, MapModel.len data = n /\ blen s + n <= s_max s /\ active st' = Active (set_buf s (s_buf s ++ data)))).
+Proof. exact stmt_capacity. Qed.
+
+(* ... so a statement that would cross max_len (the next occupied address or 2^32) changes neither the map nor the
+   active segment, returns an error level and has pushed a diagnostic *)
+Theorem C13_capacity_overflow : forall dbg fs inc st s e n r st', good st -> active st = Active s ->
+  stmt_size fs st s e = Some n -> s_max s < blen s + n -> step dbg fs inc st e = Ret r st' ->
+  output st' = output st /\ active st' = active st /\ r <> None /\ errors st' <> [].
+Proof. exact stmt_overflow. Qed.
+
+(* ---------------------------------------------------------------- deferred statements *)
+(* a task with range [a, a+n) either changes nothing (diagnostic, or deferred again), or rewrites exactly that range:
+   inside the active buffer when the range lies there (the buffer is spliced at offset a - base, its length and every
+   other byte kept), otherwise over the pre-allocated bytes of the map (same occupied set, contents = the old
+   dictionary with data written at a); the other one of active segment / map is untouched *)
+Theorem C13_deferred_address : forall dbg st t a n r st', good st -> task_range t = Some (a, n) -> allocated st a n ->
+  run_task dbg st t = Ret r st' ->
+  (output st' = output st /\ active st' = active st)
+  \/ (exists s data, active st = Active s /\ in_active s a n /\ MapModel.len data = n /\ output st' = output st /\
+        active st' = Active (set_buf s (splice (s_buf s) (a - s_base s) data)))
+  \/ (exists data, in_map (output st) a n /\ MapModel.len data = n /\ active st' = active st /\ Rep (output st') /\
+        (forall x, occupied (output st') x <-> occupied (output st) x) /\
+        abs (output st') = d_write (abs (output st)) a data).
+Proof. exact run_task_shape. Qed.
+
+(* the case the property names (fix fe020dd): the active region now ends exactly where the statement begins — the
+   statement's bytes are the ones in the map, and the active region is not touched *)
+Theorem C13_deferred_address_adjacent : forall dbg st t a n r st' s, good st -> task_range t = Some (a, n) ->
+  allocated st a n -> 0 < n -> active st = Active s -> s_base s + blen s = a ->
+  run_task dbg st t = Ret r st' -> active st' = active st /\ in_map (output st) a n.
+Proof. exact run_task_shape_adjacent. Qed.
 
 Open Scope string_scope.
 (* non-vacuity: the four repaired defects on the model (source texts of the corpus) *)
@@ -122,4 +236,21 @@ Theorem C13_examples :
   /\ run ".addr 0xFFFFFFFF; .du8 1; .du8 2;" = Done Failure [d 1 27 (KApply ASegOverflow)] [(0xFFFFFFFF, 0xFFFFFFFF, [1])]
   /\ run ".addr 0x20000010; B later; NOP; .addr 0x2000000E; NOP; later:"
        = Done Success [] [(0x2000000E, 0x20000013, [0; 191; 254; 231; 0; 191])].
+Proof. vm_compute. repeat split; reflexivity. Qed.
+
+(* non-vacuity of the statement-level theorems: sizes are defined for the statement kinds the property lists, and a
+   pending task has a range *)
+Theorem C13_examples_sizes :
+  let src := bytes_of_string in
+  let nofs : str -> option (list N) := fun _ => None in
+  let s := mkSeg 0x20000001 [1%N] 7 in
+  let st := set_active init_state (Active s) in
+  let el v := mkElement 1 1 v in
+     stmt_size nofs st s (el (EInstruction (src "nop") [])) = Some 2%N
+  /\ stmt_size nofs st s (el (EInstruction (src "BL") [AIdent (src "later")])) = Some 4%N
+  /\ stmt_size nofs st s (el (EDirective (src "du32") [AIdent (src "later")])) = Some 4%N
+  /\ stmt_size nofs st s (el (EDirective (src "dstr") [AStr (src "abc")])) = Some 3%N
+  /\ stmt_size nofs st s (el (EDirective (src "dhex") [AStr (src "0a 0b")])) = Some 2%N
+  /\ stmt_size nofs st s (el (EDirective (src "align") [AConst 4])) = Some 2%N
+  /\ task_range (InstrTask (mkAI (src "f") 1 1 0x100 (Instr.Bl 0) (AsmStmtModel.mkAst [] 0)) false) = Some (0x100, 4)%N.
 Proof. vm_compute. repeat split; reflexivity. Qed.
